@@ -203,15 +203,21 @@ func init() {
 func init() {
 	g2lUnits = append(g2lUnits, &g2lUnit{
 		out: "FnDirhash", ns: "Dirhash", pkgDir: "sumdb/dirhash",
-		imports:     []string{"ModVerif.Basic.GoRtSort"},
-		fns:         []string{"Hash1"},
+		imports:     []string{"ModVerif.Basic.GoRtSort", "ModVerif.Basic.GoRtWalk"},
+		fns:         []string{"Hash1", "DirFiles", "HashDir"},
+		structNames: []string{"FileInfo"},
+		ifaceStructs: map[string]string{
+			"FileInfo": "/-- `os.FileInfo` as the dirhash code uses it -/\nstructure FileInfo where\n  IsDir : Bool\n  deriving DecidableEq, Repr\ninstance : Inhabited FileInfo := ⟨{ IsDir := false }⟩\n",
+		},
+		walkCalls:      map[string]string{"filepath.Walk": "walkRoot?"},
+		lambdaClosures: true,
 		accumTypes:  map[string]bool{"hash.Hash": true},
 		ifaces:      map[string]string{"ReadCloser": "Bytes"},
 		ignoreCalls: map[string]bool{"Close": true},
 		mutCalls:    map[string]string{"sort.Strings": "sortStrings"},
-		stdCalls:    map[string]stdFn{"sha256.New": {"emptyBytes", false}},
-		absCalls:    map[string]string{"h.Sum": "shaSum:recv", "hf.Sum": "shaSum:recv", "base64.StdEncoding.EncodeToString": "b64enc"},
-		absSigs:     map[string]string{"shaSum": "Bytes → Bytes → Bytes", "b64enc": "Bytes → Bytes"},
+		stdCalls:    map[string]stdFn{"sha256.New": {"emptyBytes", false}, "filepath.Clean": {"pathClean", false}, "filepath.Join": {"fpJoin", false}, "filepath.ToSlash": {"id", false}},
+		absCalls:    map[string]string{"h.Sum": "shaSum:recv", "hf.Sum": "shaSum:recv", "base64.StdEncoding.EncodeToString": "b64enc", "os.Open": "osOpenRead"},
+		absSigs:     map[string]string{"shaSum": "Bytes → Bytes → Bytes", "b64enc": "Bytes → Bytes", "walkRoot": "Bytes → Option (FsTree FileInfo)", "osOpenRead": "Bytes → (Bytes × Option String)"},
 	})
 }
 
